@@ -135,8 +135,9 @@ ManyAlternatives(nroot, nadd) ==
   TChoice([i \in 1..nroot |-> Alt("r" \o ToString(i), WithTag(TBool, Tag("C", i - 1, "D")))], nadd > 0,
           [i \in 1..nadd |-> Alt("a" \o ToString(i), WithTag(TNull, Tag("C", nroot + i - 1, "D")))])
 ManyTypes == IF Rich THEN <<ManyEnum(130, 0), ManyEnum(3, 70), ManyEnum(257, 0), ManyAdditions(65), ManyAdditions(3),
+                            ManyAdditions(7), ManyAdditions(8), ManyAdditions(9), ManyAdditions(16), ManyAdditions(64),
                             ManyAlternatives(3, 66), ManyAlternatives(130, 0)>>
-             ELSE <<ManyEnum(3, 70), ManyAdditions(65)>>
+             ELSE <<ManyEnum(3, 70), ManyAdditions(65), ManyAdditions(8)>>
 
 PrimTypes == <<TBool, TNull, TOid, TReal>> \o IntTypes \o EnumTypes \o BitsTypes \o OctsTypes \o StrTypes \o ManyTypes
 
